@@ -227,6 +227,26 @@ def build_driver(profile='dev'):
     return path
 
 
+_bins = {}
+
+
+def build_repo_bin(name, package=None):
+    """build a binary of /repo's current working tree into a private target dir; returns the executable path"""
+    if name in _bins:
+        return _bins[name]
+    env = dict(os.environ)
+    env['CARGO_NET_OFFLINE'] = 'true'
+    env['CARGO_TARGET_DIR'] = os.path.join(CACHE, 'repo-target')
+    env.pop('RUSTFLAGS', None)
+    cmd = ['cargo', 'build', '--offline', '-q', '--manifest-path', os.path.join(dump.REPO, 'Cargo.toml'), '-p', package or name, '--bin', name]
+    p = subprocess.run(cmd, env=env, capture_output=True, text=True)
+    if p.returncode != 0:
+        raise RuntimeError('building %s failed:\n%s' % (name, p.stderr[-3000:]))
+    path = os.path.join(CACHE, 'repo-target', 'debug', name)
+    _bins[name] = path
+    return path
+
+
 def driver_run(lines, profile='dev', timeout=120):
     path = build_driver(profile)
     try:
